@@ -450,6 +450,31 @@ theorem send_run_post (wss : List (List WRes)) : ∀ (s : Send), s.cursor ≤ s.
     | loopCap => exact p
     | spin => exact p
 
+theorem send_exactly_once_all (peer loc : SockAddr) (wss : List (List WRes)) :
+    let hdr := encode (Header.new .proxy peer loc)
+    let r := (Send.new peer loc).run wss
+    r.2.2 = hdr.take r.1.cursor ∧ r.1.cursor ≤ hdr.length ∧
+    (r.2.1 = .upgrade → r.2.2 = hdr) ∧
+    (r.2.1 ≠ .upgrade → r.2.2.length < hdr.length) ∧
+    (r.2.1 = .cont ∨ r.2.1 = .close ∨ r.2.1 = .upgrade) := by
+  intro hdr r
+  have p := send_run_post wss (Send.new peer loc) (Nat.zero_le _)
+  have h0 : (Send.new peer loc).header = hdr := rfl
+  have hc0 : (Send.new peer loc).cursor = 0 := rfl
+  obtain ⟨h1, h2, h3, h4, h5, h6, h7⟩ := p
+  rw [h0] at h3 h4 h5 h6
+  rw [hc0] at h4 h6
+  simp only [List.take_zero, List.nil_append] at h4
+  have hlen : 0 < hdr.length := by
+    simp [hdr, encode, encSig, Consts.ppEncSignature]
+  refine ⟨h4, h3, ?_, ?_, h7⟩
+  · intro hu; show r.2.2 = hdr; rw [h4, h5 hu, List.take_length]
+  · intro hn
+    have := h6 hn hlen
+    show r.2.2.length < hdr.length
+    rw [h4, List.length_take]; omega
+
+
 /-! ### Expect -/
 
 theorem stageLen_v4 : stageLen .v4 = 28 := rfl
